@@ -1,4 +1,4 @@
-import ZbossModel.Proofs.HostLive
+import ZbossModel.Proofs.HostBound
 /-! # C20 - closing or losing the link never strands a caller and is reported once -/
 namespace Zboss.Host
 
@@ -173,6 +173,25 @@ theorem C20_close_drains (evs : List Ev) (hs : Shut (runEvents {} evs).1) (hq : 
     ∀ r ∈ (runEvents {} evs).1.reqs, r.phase = .done :=
   drain_shut _ (good_reachable evs) hs hq hna
 
+/-- **every request ends within the acknowledgement wait after close - every history**: let the API be closed in any
+    reachable state (no reset in progress) and let the event loop come to rest (`ready = []`).  If some request is
+    still running then exactly one acknowledgement wait is pending; the next timer to fire is that wait's - the clock
+    moves to its deadline, which was set to `now + ACK_TIMEOUT` when the frame was written (`C11_write_step`) - and
+    once the loop has come to rest again every request has ended.  No request sits out its response timeout. -/
+theorem C20_close_bounded (evs : List Ev) (hnr : (runEvents {} evs).1.resetting = false)
+    (hq1 : (step (runEvents {} evs).1 .close).ready = [])
+    (hq2 : (step (step (runEvents {} evs).1 .close) .tick).ready = []) :
+    (∀ r ∈ (step (step (runEvents {} evs).1 .close) .tick).reqs, r.phase = .done) ∧
+    (∀ j ∈ (step (runEvents {} evs).1 .close).reqs, j.phase = .waitAck →
+      (step (step (runEvents {} evs).1 .close) .tick).now = max (step (runEvents {} evs).1 .close).now j.deadline) := by
+  have hg1 : Good (step (runEvents {} evs).1 .close) := good_step _ _ (good_reachable evs)
+  have hs1 : Shut (step (runEvents {} evs).1 .close) := C20_close_shuts _ hnr
+  obtain ⟨hcalm, htime⟩ := calm_after_tick _ hg1 hs1 hq1
+  refine ⟨?_, htime⟩
+  apply drain_shut _ (good_step _ _ hg1) (shut_step _ _ hs1) hq2
+  intro r hrm
+  exact (hcalm (core r) (List.mem_map.mpr ⟨r, hrm, rfl⟩)).2
+
 /-- the task of a request always blocks or ends within six micro-steps: the fuel of the model's `runReq` (64) is never
     the reason a task stops -/
 theorem C20_task_runs_to_a_stop (st : St) (i : Nat) : rank st i ≤ 5 := rank_le st i
@@ -182,6 +201,14 @@ theorem C20_task_runs_to_a_stop (st : St) (i : Nat) : rank st i ≤ 5 := rank_le
 example : let st := (runEvents {} [.start 1 5 true 3 3013, .start 2 1 true 1 5026, .start 3 2 false 2 7039, .close, .tick]).1
     st.ready = [] ∧ (st.reqs.all fun r => r.phase != .waitAck) = true ∧ (st.reqs.all fun r => r.phase == .done) = true ∧
     st.isOpen = false ∧ st.listeners = [] := by decide +kernel
+
+/-! ## non-vacuity of `C20_close_bounded`: three requests (one awaiting the ACK of its first fragment, written at
+    time 0, two queued); close: the loop comes to rest with request 1 still in its ACK wait; the timer fires at 1000 ms =
+    ACK_TIMEOUT: the loop comes to rest again and every request has ended -/
+example : let st := (runEvents {} [.start 1 5 true 3 3013, .start 2 1 true 1 5026, .start 3 2 false 2 7039]).1
+    st.resetting = false ∧ (step st .close).ready = [] ∧ (step (step st .close) .tick).ready = [] ∧
+    ((step st .close).reqs.any fun r => r.phase == .waitAck) = true ∧
+    (step (step st .close) .tick).now = 1000 ∧ Gen.ackTimeoutMs = 1000 := by decide +kernel
 
 /-! ## non-vacuity: close with a request awaiting its ACK and one queued: both end within the ACK wait -/
 example : let r := runEvents {} [.start 1 5 true 3 3013, .start 2 1 true 1 5026, .close, .tick]
